@@ -33,13 +33,14 @@ import (
 
 // Inliner produces inlined views of functions.
 type Inliner struct {
-	Prog     *core.Program
-	Keep     func(*types.Func) bool // functions that are never inlined (the anchors of the rule set)
-	MaxDepth int
-	memo     map[*ast.FuncDecl]*core.Fn
-	nlabel   int
-	threaded map[ast.Stmt]bool // tests already re-threaded (rethread.go)
-	scratch  []*ast.FuncDecl   // declarations analysed while a view was built (kept alive: graph caches are keyed by address)
+	Prog        *core.Program
+	Keep        func(*types.Func) bool // functions that are never inlined (the anchors of the rule set)
+	MaxDepth    int
+	memo        map[*ast.FuncDecl]*core.Fn
+	nlabel      int
+	threaded    map[ast.Stmt]bool // tests already re-threaded (rethread.go)
+	scratchLits []*ast.FuncLit
+	scratch     []*ast.FuncDecl // declarations analysed while a view was built (kept alive: graph caches are keyed by address)
 }
 
 // NewInliner creates an inliner; keep names the functions that stay calls.
@@ -73,6 +74,7 @@ func (in *Inliner) Fn(fn *core.Fn) *core.Fn {
 		undefer(fn.Pkg.TypesInfo, fn.Pkg.Types, &decl)
 	}
 	if os.Getenv("RS_NO_PROPAGATE") == "" {
+		constFields(fn.Pkg.TypesInfo, fn.Pkg.Syntax, &decl)
 		propagate(in, fn, &decl)
 	}
 	out := &core.Fn{Obj: fn.Obj, Decl: &decl, Pkg: fn.Pkg}
@@ -99,20 +101,21 @@ type retPolicy struct {
 }
 
 type cloner struct {
-	in    *Inliner
-	info  *types.Info
-	pkg   *types.Package
-	subst map[types.Object]ast.Expr
-	stack []*types.Func
-	ret   *retPolicy // nil: returns are copied unchanged
-	inLit int
-	outer ast.Node                      // body of the function (or helper) being copied (for single-assignment tests)
-	root  ast.Node                      // body of the function in which closure variables are looked up
-	lits  []*ast.FuncLit                // closures being inlined (recursion guard)
-	deref map[types.Object]ast.Expr     // pointer local -> the variable it points to (`out := &b`): *out reads as b
-	next2 ast.Stmt                      // the statement behind the one that follows a call being inlined, when it is a test too
-	used2 bool                          // ... and it was consumed (threaded into) as well
-	funcs map[types.Object]*ast.FuncLit // function-typed parameter -> the literal the call passes for it (only ever called)
+	in     *Inliner
+	info   *types.Info
+	pkg    *types.Package
+	subst  map[types.Object]ast.Expr
+	stack  []*types.Func
+	ret    *retPolicy // nil: returns are copied unchanged
+	inLit  int
+	outer  ast.Node                      // body of the function (or helper) being copied (for single-assignment tests)
+	root   ast.Node                      // body of the function in which closure variables are looked up
+	lits   []*ast.FuncLit                // closures being inlined (recursion guard)
+	deref  map[types.Object]ast.Expr     // pointer local -> the variable it points to (`out := &b`): *out reads as b
+	next2  ast.Stmt                      // the statement behind the one that follows a call being inlined, when it is a test too
+	used2  bool                          // ... and it was consumed (threaded into) as well
+	spread map[types.Object][]ast.Expr   // variadic parameter that is only forwarded (`f(x, rest...)`) -> the extra arguments of this call
+	funcs  map[types.Object]*ast.FuncLit // function-typed parameter -> the literal the call passes for it (only ever called)
 }
 
 var (
@@ -131,6 +134,14 @@ func (cl *cloner) node(n ast.Node) ast.Node {
 func (cl *cloner) expr(e ast.Expr) ast.Expr {
 	if e == nil {
 		return nil
+	}
+	if call, ok := e.(*ast.CallExpr); ok {
+		if m := cl.macro(call); m != nil {
+			return m
+		}
+	}
+	if id, ok := e.(*ast.Ident); ok {
+		return cl.ident(id) // an expression position: the identifier may stand for any substituted expression
 	}
 	return cl.node(e).(ast.Expr)
 }
@@ -172,6 +183,21 @@ func (cl *cloner) val(v reflect.Value) reflect.Value {
 		if _, ok := v.Interface().(*ast.FuncLit); ok {
 			cl.inLit++
 			defer func() { cl.inLit-- }()
+		}
+		if call, ok := v.Interface().(*ast.CallExpr); ok && call.Ellipsis.IsValid() && len(call.Args) > 0 {
+			if id, isID := ast.Unparen(call.Args[len(call.Args)-1]).(*ast.Ident); isID {
+				if extra, has := cl.spread[cl.info.Uses[id]]; has {
+					c := &ast.CallExpr{Fun: cl.expr(call.Fun), Lparen: call.Lparen, Rparen: call.Rparen}
+					for _, a := range call.Args[:len(call.Args)-1] {
+						c.Args = append(c.Args, cl.expr(a))
+					}
+					for _, a := range extra {
+						c.Args = append(c.Args, cl.retarget(a, id.Pos()))
+					}
+					cl.register(call, c)
+					return reflect.ValueOf(c)
+				}
+			}
 		}
 		if sel, ok := v.Interface().(*ast.SelectorExpr); ok {
 			if id, isID := ast.Unparen(sel.X).(*ast.Ident); isID {
@@ -852,7 +878,20 @@ func (cl *cloner) inlinable(call *ast.CallExpr) *core.Fn {
 		}
 	}
 	sig := f.Type().(*types.Signature)
-	if sig.Variadic() || sig.TypeParams() != nil || sig.RecvTypeParams() != nil || call.Ellipsis.IsValid() || len(call.Args) != sig.Params().Len() {
+	if sig.TypeParams() != nil || sig.RecvTypeParams() != nil || call.Ellipsis.IsValid() {
+		return nil
+	}
+	if sig.Variadic() {
+		// a variadic helper that only forwards its rest parameter (`g(x, rest...)`): the extra arguments
+		// are spliced into those calls
+		if len(call.Args) < sig.Params().Len()-1 {
+			return nil
+		}
+		hh := cl.in.Prog.FnOf(f)
+		if hh == nil || hh.Decl.Body == nil || !forwardsOnly(cl.info, hh.Decl, sig.Params().At(sig.Params().Len()-1)) {
+			return nil
+		}
+	} else if len(call.Args) != sig.Params().Len() {
 		return nil
 	}
 	if sel, ok := ast.Unparen(call.Fun).(*ast.SelectorExpr); ok && sig.Recv() != nil {
@@ -878,6 +917,29 @@ func (cl *cloner) inlinable(call *ast.CallExpr) *core.Fn {
 	return h
 }
 
+// forwardsOnly: every mention of the variadic parameter rest in decl's body is the spread last argument
+// of a call (`g(a, rest...)`).
+func forwardsOnly(info *types.Info, decl *ast.FuncDecl, rest *types.Var) bool {
+	ok, n := true, 0
+	fwd := map[*ast.Ident]bool{}
+	core.InspectAll(decl.Body, func(m ast.Node) bool {
+		if call, isCall := m.(*ast.CallExpr); isCall && call.Ellipsis.IsValid() && len(call.Args) > 0 {
+			if id, isID := ast.Unparen(call.Args[len(call.Args)-1]).(*ast.Ident); isID && info.Uses[id] == types.Object(rest) {
+				fwd[id] = true
+				n++
+			}
+		}
+		return true
+	})
+	core.InspectAll(decl.Body, func(m ast.Node) bool {
+		if id, isID := m.(*ast.Ident); isID && info.Uses[id] == types.Object(rest) && !fwd[id] {
+			ok = false
+		}
+		return ok
+	})
+	return ok && n > 0
+}
+
 // onlyCalled: every mention of obj below root is the callee of a call.
 func onlyCalled(info *types.Info, root ast.Node, obj types.Object) bool {
 	ok, calls := true, 0
@@ -898,9 +960,12 @@ func onlyCalled(info *types.Info, root ast.Node, obj types.Object) bool {
 }
 
 // macro: a call, in an expression position, of a same-package helper whose
-// body is a single `return <pure expression>` (a predicate such as
-// `func endsWithCRLF(b []byte, n int) bool { return n >= 0 && b[n] == '\r' }`)
-// with plain arguments reads as that expression over the arguments.
+// body is a single `return <expression>` (a predicate such as
+// `func endsWithCRLF(b []byte, n int) bool { return n >= 0 && b[n] == '\r' }`,
+// an accessor such as `func (s *copier) copied() int64 { return s.n.Get() }`)
+// with plain arguments reads as that expression over the arguments: it is
+// evaluated once, where the call was, and plain arguments have no effects
+// whose order or number could change.
 func (cl *cloner) macro(call *ast.CallExpr) ast.Expr {
 	if cl.in == nil || cl.in.Prog == nil || cl.pkg == nil {
 		return nil
@@ -931,17 +996,6 @@ func (cl *cloner) macro(call *ast.CallExpr) ast.Expr {
 			if x.Op == token.AND || x.Op == token.ARROW {
 				pureExpr = false
 			}
-		case *ast.CallExpr:
-			if tv, isConv := cl.info.Types[x.Fun]; isConv && tv.IsType() {
-				return true
-			}
-			if IsBuiltin(cl.info, x, "len") || IsBuiltin(cl.info, x, "cap") {
-				return true
-			}
-			if g := core.CalleeFunc(cl.info, x); g != nil && g.Pkg() != nil && (g.Pkg().Path() == "bytes" || g.Pkg().Path() == "strings") {
-				return true
-			}
-			pureExpr = false
 		}
 		return pureExpr
 	})
@@ -974,8 +1028,30 @@ func (cl *cloner) macro(call *ast.CallExpr) ast.Expr {
 			return nil
 		}
 	}
+	child.spread = map[types.Object][]ast.Expr{}
+	for o, e := range cl.spread {
+		child.spread[o] = e
+	}
 	k := 0
 	for _, fl := range h.Decl.Type.Params.List {
+		if _, variadic := fl.Type.(*ast.Ellipsis); variadic {
+			if len(fl.Names) != 1 {
+				return nil
+			}
+			var extra []ast.Expr
+			for _, a := range call.Args[k:] {
+				ca := cl.expr(a)
+				if !cl.simple(ca) {
+					return nil
+				}
+				extra = append(extra, ca)
+			}
+			if obj := cl.info.Defs[fl.Names[0]]; obj != nil {
+				child.spread[obj] = extra
+			}
+			k = len(call.Args)
+			continue
+		}
 		if len(fl.Names) == 0 {
 			if !bind(nil, call.Args[k]) {
 				return nil
@@ -1220,7 +1296,36 @@ func (cl *cloner) inline(call *ast.CallExpr, h *core.Fn, pol *retPolicy, afterLa
 		child.funcs[o] = l
 	}
 	var pre []ast.Stmt
-	bind := func(name *ast.Ident, arg ast.Expr) {
+	bind := func(name *ast.Ident, orig ast.Expr) {
+		if name != nil && name.Name != "_" {
+			obj := cl.info.Defs[name]
+			// an argument that is itself a call of a helper (`parse(read(r))`): the inner call runs first, as
+			// a statement of its own that binds the parameter, where it is expanded like any other call
+			if inner, isCall := ast.Unparen(orig).(*ast.CallExpr); isCall && obj != nil && cl.inlinable(inner) != nil {
+				id := &ast.Ident{NamePos: orig.Pos(), Name: name.Name}
+				cl.info.Defs[id] = obj
+				as := &ast.AssignStmt{Lhs: []ast.Expr{id}, TokPos: orig.Pos(), Tok: token.DEFINE, Rhs: []ast.Expr{orig}}
+				if ss, _ := cl.stmt(as, nil); ss != nil {
+					pre = append(pre, ss...)
+					return
+				}
+			}
+			// a closure bound once to a local of the caller and handed on by name, for a parameter that
+			// the helper only ever calls
+			if aid, isID := ast.Unparen(orig).(*ast.Ident); isID && obj != nil && onlyCalled(cl.info, h.Decl.Body, obj) {
+				if lit, isLit := ast.Unparen(ValueOf(cl.info, cl.root, aid)).(*ast.FuncLit); isLit {
+					child.funcs[obj] = lit
+					return
+				}
+				if av, isVar := cl.info.Uses[aid].(*types.Var); isVar {
+					if lit, has := cl.funcs[av]; has {
+						child.funcs[obj] = lit
+						return
+					}
+				}
+			}
+		}
+		arg := cl.expr(orig)
 		if name == nil || name.Name == "_" {
 			if _, isCall := ast.Unparen(arg).(*ast.CallExpr); isCall {
 				pre = append(pre, &ast.ExprStmt{X: arg})
@@ -1255,17 +1360,50 @@ func (cl *cloner) inline(call *ast.CallExpr, h *core.Fn, pol *retPolicy, afterLa
 			if len(h.Decl.Recv.List[0].Names) == 1 {
 				name = h.Decl.Recv.List[0].Names[0]
 			}
-			bind(name, cl.expr(sel.X))
+			bind(name, sel.X)
 		}
+	}
+	child.spread = map[types.Object][]ast.Expr{}
+	for o, e := range cl.spread {
+		child.spread[o] = e
 	}
 	k := 0
 	for _, f := range h.Decl.Type.Params.List {
+		if _, variadic := f.Type.(*ast.Ellipsis); variadic && len(f.Names) == 1 {
+			// the rest parameter of a forwarding helper: its arguments travel on to the calls it spreads into
+			var extra []ast.Expr
+			for _, a := range call.Args[k:] {
+				ca := cl.expr(a)
+				if !cl.simple(ca) {
+					// keep the evaluation where it was: bind to a local first
+					nm := fmt.Sprintf("%s_%d", f.Names[0].Name, len(extra))
+					t := cl.info.TypeOf(a)
+					if t == nil {
+						extra = append(extra, ca)
+						continue
+					}
+					v := types.NewVar(a.Pos(), cl.pkg, nm, t)
+					def := &ast.Ident{NamePos: a.Pos(), Name: nm}
+					use := &ast.Ident{NamePos: a.Pos(), Name: nm}
+					cl.info.Defs[def], cl.info.Uses[use] = v, v
+					cl.info.Types[use] = types.TypeAndValue{Type: t}
+					pre = append(pre, &ast.AssignStmt{Lhs: []ast.Expr{def}, TokPos: a.Pos(), Tok: token.DEFINE, Rhs: []ast.Expr{ca}})
+					ca = use
+				}
+				extra = append(extra, ca)
+			}
+			if obj := cl.info.Defs[f.Names[0]]; obj != nil {
+				child.spread[obj] = extra
+			}
+			k = len(call.Args)
+			continue
+		}
 		if len(f.Names) == 0 {
-			bind(nil, cl.expr(call.Args[k]))
+			bind(nil, call.Args[k])
 			k++
 		}
 		for _, n := range f.Names {
-			bind(n, cl.expr(call.Args[k]))
+			bind(n, call.Args[k])
 			k++
 		}
 	}
